@@ -61,6 +61,9 @@ class Model:
         self.commits = 0
         self.history = []    # bzr: the basis of every commit so far
         self.unc = set()     # bzr toks whose recorded kind is unknown
+        self.locked = False  # between a "lock" and an "unlock" step
+        self.gone_in_lock = set()
+        self.stale = set()   # git: index entries a listed defect leaves behind
         self.flags = set()   # preconditions of known defects met by the
         #                      last step (the generator thins those out)
 
@@ -245,7 +248,18 @@ class Model:
     # ------------------------------------------------------------ apply
     def apply(self, step):
         self.flags = set()
+        was = set(self.versioned_paths()) if self.locked else None
+        stale_was = set(self.idx) if self.fmt == "git" else None
         r = getattr(self, "op_" + step[0])(*step[1:])
+        if was is not None and self.locked:
+            # what stopped being versioned while one lock is held
+            self.gone_in_lock |= was - set(self.versioned_paths())
+        if stale_was is not None:
+            # a stale entry (see op_commit) is cured by removing the path
+            # or adding it again
+            self.stale = set(p for p in self.stale if not (
+                step[0] == "remove" and inside(step[1], p)) and
+                p not in self.idx)
         self._note_observation()
         return r
 
@@ -350,6 +364,8 @@ class Model:
         if par not in ip:
             if par in self.ipaths(self.basis):
                 self.flags.add("parent-removed-but-committed")
+            elif par in self.gone_in_lock:
+                self.flags.add("parent-removed-under-the-same-lock")
             return "refuse"
         self._certain(ip[par], p)
         if self.inv[ip[par]][2] != "directory":
@@ -473,9 +489,13 @@ class Model:
         return "ok"
 
     def op_lock(self, mode):
+        self.locked = True
+        self.gone_in_lock = set()
         return "ok"
 
     def op_unlock(self):
+        self.locked = False
+        self.gone_in_lock = set()
         return "ok"
 
     def _after_bzr(self, a, b, entry):
@@ -661,9 +681,14 @@ class Model:
         self.commits += 1
         if self.fmt == "git":
             nb = {}
-            if any(self.kind(p) == "directory" and p not in self.gbasis
-                   for p in self.idx):
+            left = [p for p in self.idx if self.kind(p) == "directory" and
+                    p not in self.gbasis]
+            if left:
+                # listed defect: these stay in the index; where index
+                # entries below them keep the path versioned anyway that
+                # only shows later
                 self.flags.add("dirified-index-entry")
+                self.stale |= set(left)
             self._git_status_flags()
             for p in sorted(self.idx):
                 k = self.kind(p)
